@@ -277,3 +277,58 @@ func blockReaches(start, target, avoid *ssa.BasicBlock) bool {
 	}
 	return false
 }
+
+// dependsOnFS: dependsOn, but a load from a local slot only depends on the stores that can reach the load
+// (a copy taken before a loop does not depend on what the loop stores into the variable later).
+func dependsOnFS(v ssa.Value, pred func(ssa.Value) bool) bool {
+	seen := map[ssa.Value]bool{}
+	var rec func(v ssa.Value, d int) bool
+	storesInto := func(a *ssa.Alloc, at ssa.Instruction, d int) bool {
+		for _, ref := range *a.Referrers() {
+			switch y := ref.(type) {
+			case *ssa.Store:
+				if y.Addr == ssa.Value(a) && (at == nil || reachable(a.Parent(), y, at)) && rec(y.Val, d+1) {
+					return true
+				}
+			case *ssa.FieldAddr, *ssa.IndexAddr:
+				sub := ref.(ssa.Value)
+				if sr := sub.Referrers(); sr != nil {
+					for _, z := range *sr {
+						if st, ok := z.(*ssa.Store); ok && st.Addr == sub && (at == nil || reachable(a.Parent(), st, at)) && rec(st.Val, d+1) {
+							return true
+						}
+					}
+				}
+			}
+		}
+		return false
+	}
+	rec = func(v ssa.Value, d int) bool {
+		if v == nil || seen[v] || d > 40 {
+			return false
+		}
+		seen[v] = true
+		if pred(v) {
+			return true
+		}
+		switch x := v.(type) {
+		case *ssa.UnOp:
+			if x.Op == token.MUL {
+				if a, ok := x.X.(*ssa.Alloc); ok {
+					return storesInto(a, x, d)
+				}
+			}
+		case *ssa.Alloc:
+			return storesInto(x, nil, d)
+		}
+		if in, ok := v.(ssa.Instruction); ok {
+			for _, op := range in.Operands(nil) {
+				if op != nil && *op != nil && rec(*op, d+1) {
+					return true
+				}
+			}
+		}
+		return false
+	}
+	return rec(v, 0)
+}
